@@ -941,7 +941,7 @@ func (c07) Exec(c Case) [][][]string {
 	var feed func([]map[string]interface{})
 	switch mode {
 	case "e2e":
-		s := streamsql.New(streamsql.WithDiscardLog())
+		s := streamsql.New(presetOpt(), streamsql.WithDiscardLog())
 		defer s.Stop()
 		if err := s.Execute(sql); err != nil {
 			return fail("execute: " + err.Error())
